@@ -13,7 +13,7 @@ P = {
  "C01": ("bounded-exhaustive input enumeration of the real mean-CI code vs exact-rational + independent t/normal CDF oracle",
          "Every sample sequence over stated float alphabets (also scaled by powers of two from 2^-300 to 2^300) up to a length bound x all confidences x f32/f64 x all call styles, streaming states queried at every n across the t->z switch, and all one-shot entry points on vectors up to 2.5e5 values, are executed on the real code and judged against exact rational statistics and an independent Student-t/normal CDF. Exhaustive within the bound; tests pin ~10 data sets.", "4/C01"),
  "C02": ("exhaustive (n,k) triangle x confidence grid x all proportion front-ends vs score-equation oracle",
-         "All (n,k) with k<=n+1 up to a bound, all confidences, every front-end (counts, ratio, booleans, predicate, running Stats, Wald) run on the real code; bounds checked against the Wilson roots and the exact score-equation residual; admissibility decided on integers.", "4/C02"),
+         "All (n,k) with k<=n+1 up to a bound, all confidences, every front-end (counts, ratio, booleans, predicate, running Stats, Wald) run on the real code; bounds checked against the Wilson roots and the exact score-equation residual; admissibility decided on integers; plus every (population, successes) pair of a small box, incl. successes > population, restored by a deserializer and asked through Stats::ci (checks/c02.sh).", "4/C02"),
  "C03": ("exhaustive (n,q,confidence) rank enumeration + all permutations of small samples vs independent Wilson-rank oracle",
          "Every n up to a bound x dense q grid (incl. half-integer q*n) x all confidences through the index, sorted, unsorted, fixed-capacity and Stats entry points; all n! input orders for n<=7..8 with ties over several element types.", "4/C03"),
  "C04": ("bounded-exhaustive enumeration of sample pairs and feeding histories, differential vs the real arithmetic path and exact Welch oracle",
@@ -49,7 +49,7 @@ P = {
  "C19": ("exhaustive enumeration of float interval pairs x tolerances generated around the actual bound differences",
          "All ordered pairs of 65 float intervals x tolerance grids derived from the pair, for abs/relative/ulps equality; Display byte-for-byte.", "4/C19"),
  "C20": ("configuration enumeration (5 feature sets built) + explicit-state BFS with a RoundTrip action in every reachable state",
-         "Every advertised feature set is built from the working tree; with serde on, BFS over accumulation histories where every state is round-tripped through CBOR/JSON/TOML and must be the same search state (equal, same Debug, same statistics, same continuations).", "4/C20"),
+         "Every advertised feature set is built from the working tree; with serde on, BFS over accumulation histories where every state is round-tripped through CBOR/JSON/TOML and a positional (bincode-style, non-self-describing) format and must be the same search state (equal, same Debug, same statistics, same continuations).", "4/C20"),
 }
 
 checks = []
